@@ -205,8 +205,66 @@ let cap_of_string s = try int_of_string s with Failure _ -> if String.length s >
 let run_model ?(fuel = fuel) single (cap : string) words ops = M.zrun_obs single fuel (z_of_string cap) M.zinit words ops
 let big_fuel = nat_of_int 6000
 
+
+(* ---- Z lines (round 7): distinct.BufferSize(ε, δ, expSize) (harness/cmd/distincttrace/bufsize.go).
+   ε and δ arrive as the hex digits of their IEEE-754 bits; OCaml's floats are the same doubles with
+   the same +, *, /, so the formula is evaluated in the order the code evaluates it.  The one
+   operation that may differ in the last place between two correct libraries is the logarithm
+   (Go: Log2 by Frexp and an assembly Log; here libm's log2; both exact on powers of two), which
+   is why the harness prints values of 2^26 and more with 7 digits only. ---- *)
+let z_float s = if s = "nan" then Float.nan else Int64.float_of_bits (Int64.of_string ("0x" ^ s))
+let z_bits x = if Float.is_nan x then "nan" else Printf.sprintf "%016Lx" (Int64.bits_of_float x)
+let z_min_int = "-9223372036854775808"
+let z_show v =                        (* v = the float handed to int(); Go on amd64: MinInt64 when not representable *)
+  if Float.is_nan v || v >= 9223372036854775808. || v < -9223372036854775808. then z_min_int
+  else if Float.abs v < 67108864. then Printf.sprintf "%.0f" v
+  else Printf.sprintf "~%.6e" v
+let z_n s = Int64.of_string s
+let eval_z e d n =
+  (* the checks in the order of distinct.go; NaN passes both range checks there (every comparison is false) *)
+  let e = z_float e and d = z_float d and n = z_n n in
+  if e < 0. || e > 1. then "panic:error bound out of range: " ^ z_bits e
+  else if d < 0. || d > 1. then "panic:error rate out of range: " ^ z_bits d
+  else if Int64.compare n 0L <= 0 then Printf.sprintf "panic:expected size must be positive: %Ld" n
+  else z_show (Float.ceil ((12. /. (e *. e)) *. Float.log2 ((8. *. Int64.to_float n) /. d)))
+
+(* The contract, stated on its own: ε and δ are a relative error and a probability, expSize a
+   positive count; outside [0, 1] / below 1 the call panics and the message names the FIRST
+   offending argument in the order (ε, δ, expSize) with its value; otherwise the result is
+   ceil(12/ε² · log2(8·expSize/δ)).  The reference is computed differently (natural logarithms, the
+   division last) and the result must lie between the ceilings of the reference scaled by
+   (1 -+ 1e-9): for all but astronomically few arguments that is ONE integer (exact comparison);
+   where the reference is an integer itself (ε = δ = 1: 36, 37 both pass) or above 2^26 (7 digits
+   printed) the comparison is within +-1 resp. 1e-6 relative.  Not judged: NaN arguments (the doc is
+   silent; the code lets them through), and ε = 0 or δ = 0 or a result beyond int (int(+Inf) is
+   implementation-defined; audit note "Findings about /repo"): there only "no hang, an int comes
+   back" is required. *)
+let spec_z e d n out =
+  let e = z_float e and d = z_float d and n = z_n n in
+  let is_panic = String.length out >= 6 && String.sub out 0 6 = "panic:" in
+  if Float.is_nan e || Float.is_nan d then None else
+  let expect_panic =
+    if not (e >= 0. && e <= 1.) then Some ("panic:error bound out of range: " ^ z_bits e)
+    else if not (d >= 0. && d <= 1.) then Some ("panic:error rate out of range: " ^ z_bits d)
+    else if Int64.compare n 1L < 0 then Some (Printf.sprintf "panic:expected size must be positive: %Ld" n)
+    else None in
+  match expect_panic with
+  | Some m -> if out = m then None else Some (Printf.sprintf "BufferSize: an argument is out of range, expected %s" m)
+  | None ->
+    if is_panic then Some "BufferSize panics on arguments in range" else
+    let x = 12. *. (log (8. *. Int64.to_float n /. d) /. log 2.) /. e /. e in
+    if e = 0. || d = 0. || Float.is_nan x || x >= 9.2e18 then None else begin
+      let lo = Float.ceil (x *. (1. -. 1e-9)) and hi = Float.ceil (x *. (1. +. 1e-9)) in
+      let got, slack =
+        if String.length out > 0 && out.[0] = '~' then (float_of_string (String.sub out 1 (String.length out - 1)), 1e-6)
+        else (float_of_string out, 0.) in
+      if got >= lo *. (1. -. slack) && got <= hi *. (1. +. slack) then None
+      else Some (Printf.sprintf "BufferSize: returned %s, ceil(12/eps^2 * log2(8n/delta)) is %.0f%s" out lo (if hi <> lo then Printf.sprintf "..%.0f" hi else ""))
+    end
+
 let eval_with single inp =
   match words inp with
+  | ["Z"; e; d; n] -> eval_z e d n
   | ["H"; cap; ws; orc; ops] ->
     show (run_model single cap (parse_words ws) (model_ops (parse_ops ops) (parse_oracles orc)))
   | ["S"; cap; ws; orc; ops] ->
@@ -251,6 +309,7 @@ module IS = Set.Make (Int)
 
 let spec prop inp out =
   match prop, words inp with
+  | "C19", ["Z"; e; d; n] -> (try spec_z e d n out with Failure m -> Some ("bad Z line: " ^ m))
   | "C19", [("H" | "S") as kind; cap; ws; orc; ops] ->
     let compact = kind = "S" in
     let cap_s = cap in
